@@ -109,7 +109,10 @@ def sh_err(ctx, out, bodies, rule="SH.err", floor=1):
                         out.exception("SH.err|found-or-not|binary_search", exc["SH.err|found-or-not|binary_search"])
                         continue
                     fl = (t.get("span") or {}).get("file") or ""
-                    if callee_name(t) == "winnow::Parser::parse_peek" and fl.endswith("tag_parser.rs") and "SH.err|not-a-tag|parse_peek" in exc:
+                    if fl.endswith("tag_parser.rs") and "SH.err|not-a-tag|parse_peek" in exc and (
+                            callee_name(t) == "winnow::Parser::parse_peek"
+                            or (re.search(r"Result::<T, E>::(map|map_err|or_else|and_then|or)$", callee_name(t)) and find_calls(ctx.expr(b).call(t, bi), r"^winnow::Parser::parse_peek$"))):
+                        # (also when the attempt's Result goes through map / or_else before it is tested)
                         used.add("SH.err|not-a-tag|parse_peek")
                         out.exception("SH.err|not-a-tag|parse_peek", exc["SH.err|not-a-tag|parse_peek"])
                         continue
@@ -156,6 +159,35 @@ def _arg0_ty(t):
     return tys[0] if tys else ""
 
 
+def _insert_of_distinct_keys(ctx, b, bi, t):
+    """`map.insert(k, v)` that cannot replace anything: the map is a local created empty in this function,
+    this insert is its only write, it sits in the loop over another HashMap's entries (and in no inner
+    loop), and its key is that loop's key - the keys of a HashMap are pairwise distinct, so every
+    iteration inserts a different key."""
+    from engine import prov as P
+    from rules import util
+    if len(t["args"]) < 2:
+        return False
+    m = util.base_local(b, t["args"][0])
+    if m is None or m <= b.argc:
+        return False
+    md = b.single_def(m)
+    if not (md and md[0] == "call" and re.search(r"HashMap::<K, V>::(new|with_capacity)$|Default>::default$", callee_name(md[3]))):
+        return False
+    for bj, tj in b.calls():
+        if bj != bi and tj["args"] and VIOL_MAP.search(_arg0_ty(tj)) and util.base_local(b, tj["args"][0]) == m \
+                and re.search(r"::(entry|insert|extend|remove|clear|retain|drain|get_mut|iter_mut|values_mut)$", tj.get("def") or ""):
+            return False
+    cfg = cfg_of(b)
+    inside = cfg.loops_containing(bi)
+    files = [(h, bl) for h, bl, kind in outer_block_loops(ctx, b) if kind == "files" and bi in bl]
+    if len(inside) != 1 or len(files) != 1 or files[0][0] != inside[0]:
+        return False
+    # the key: (a clone of) the key component of the entry the files loop is at
+    kl = ctx.prov.read_operand(b, t["args"][1])
+    return bool(kl) and all((l[0] in ("param", "upvar") and "blocks" in l[2] and l[2][-1] == "0") or (l[0] == "call" and re.search(r"hash_map::Iter<.*Iterator>::next$", l[1]) and l[2][-1:] == ("0",)) for l in kl)
+
+
 def sh_merge(ctx, out, bodies, rule="SH.merge", floor_entries=5):
     """No overwriting call on a `HashMap<PathBuf, Vec<Violation>>`; all writes go through
     entry().or_insert_with().push/extend."""
@@ -174,6 +206,9 @@ def sh_merge(ctx, out, bodies, rule="SH.merge", floor_entries=5):
                 entries += 1
                 if len(samples) < 4:
                     samples.append(ctx.where(b, t["span"]))
+                continue
+            if re.search(r"HashMap::<K, V, S, A>::insert$", d) and _insert_of_distinct_keys(ctx, b, bi, t):
+                entries += 1
                 continue
             if OVERWRITE.search(d) or OVERWRITE.search(callee_name(t)):
                 key = "%s|%s|%s" % (rule, b.id, d.split("::")[-1])
@@ -283,8 +318,8 @@ def _sh_state(ctx, out, name, rule, bodies):
                 if not defs_outside:
                     continue
                 ty = loc["ty"]
-                if VIOL_MAP.search(ty) or "tokio::task::JoinSet<" in ty:
-                    continue   # the diagnostics map and the task set are the validator's outputs
+                if VIOL_MAP.search(ty) or "tokio::task::JoinSet<" in ty or re.match(r"std::vec::Vec<blockwatch::validators::Violation>$", ty):
+                    continue   # the diagnostics map (or a file's list of diagnostics) and the task set are the validator's outputs
                 if re.search(r"::Iter<|::IterMut<|::IntoIter<|std::iter::|::Lines<|::Enumerate<", ty):
                     continue   # iterator state of the loop itself
                 if re.search(r"std::task::Context|future::ResumeTy", ty) or nm == "_task_context":
@@ -464,6 +499,7 @@ def _loop_exits_ok(ctx, out, rule, name, body, cfg, h, blocks, kind):
     nb = [y for y in blocks if body.blocks[y]["term"] and body.blocks[y]["term"]["k"] == "call" and callee_matches(body.blocks[y]["term"], r"Iterator>?::next$")]
     # the exhausted-iterator exits: None arms of the driving next() calls of this loop nest level
     none_targets = set()
+    none_edges = set()      # the edges on which an exhausted iterator is left: only those are "exhaustion"
     for y in nb:
         succ = cfg.succ[y]
         if succ and body.blocks[succ[0]]["term"] and body.blocks[succ[0]]["term"]["k"] == "switch":
@@ -471,13 +507,24 @@ def _loop_exits_ok(ctx, out, rule, name, body, cfg, h, blocks, kind):
             tgt = arms.get(0, arms["otherwise"])
             none_targets.add(tgt)
             none_targets.add(U.skip_trivial(body, tgt))
+            none_edges.add((succ[0], tgt))
+            cur = tgt
+            for _ in range(6):
+                nx = cfg.succ[cur]
+                tt = body.blocks[cur]["term"]
+                if len(nx) != 1 or (tt and tt["k"] == "call"):
+                    break
+                none_edges.add((cur, nx[0]))
+                cur = nx[0]
     eb = _err_blocks(body)
     bset = set(blocks)
     bad = None
     for x in blocks:
         for y in cfg.succ[x]:
-            if y in bset or y in none_targets:
+            if y in bset or (y in none_targets and (x, y) in none_edges):
                 continue
+            # (a pipeline stage that gives up - `map_while` / `take_while` returning None - is expanded into a
+            # jump to the same block as the exhausted base iterator: it is an exit like any other)
             # an exit that is not the exhausted-iterator exit: fine iff it can only end in an error return
             r = cfg.reach(y, avoid=eb)
             normal = [z for z in r if z in cfg.exits] or [z for z in r if z == h]
